@@ -147,6 +147,8 @@ SHAPES = ["F", "F + G", "F + x", "F:G", "F + G + F:G", "x + F:G", "0 + F", "0 + 
           "w + F:w", "F:w", "F + F:w", "w + F + F:w", "0 + F:w",
           # group-specific effects: full coding (all level indicators are spanned) unless the SAME grouping factor
           # has an intercept, whatever other group-specific terms the formula has and in whatever order
+          # a factor times TWO numerics that are both main effects while their product is not a term
+          "x + w + F:x:w", "x + w + F + F:x:w", "0 + x + w + F:w:x",
           "x + (0 + F | g)", "x + (F | g)", "x + (x | h) + (0 + F | g)", "x + (0 + F | g) + (x | h)",
           "x + (1 | h) + (w | h) + (0 + F | g)", "(F | h) + (0 + F | g)"]
 
